@@ -12,42 +12,79 @@ Proof. intros o1 o2 H; destruct o1; destruct o2; try reflexivity; discriminate H
 (* ---------------------------------------------------------------------------------- *)
 (* Generic prefix-code argument                                                        *)
 (* ---------------------------------------------------------------------------------- *)
+Lemma opname_not_evaluate : forall o, opname o <> evaluate_name.
+Proof. intros o; destruct o; discriminate. Qed.
+
+(* induction principle for the nested tree type *)
+Section TreeInd.
+  Variable L : Type.
+  Variable P : tree L -> Prop.
+  Hypothesis HL : forall l, P (Leaf l).
+  Hypothesis HB : forall o a b, P a -> P b -> P (Bin o a b).
+  Hypothesis HE : forall f args, Forall P args -> P (Eval f args).
+
+  Fixpoint tree_ind' (t : tree L) : P t :=
+    match t with
+    | Leaf l => HL l
+    | Bin o a b => HB o a b (tree_ind' a) (tree_ind' b)
+    | Eval f args =>
+        HE f args ((fix go (l : list (tree L)) : Forall P l :=
+                      match l with
+                      | [] => Forall_nil P
+                      | x :: r => Forall_cons x (tree_ind' x) (go r)
+                      end) args)
+    end.
+End TreeInd.
+
 Section Prefix.
-  Variables (L T : Type) (leafkey : L -> T) (optok : string -> T).
+  Variables (L T : Type) (leafkey : L -> T) (optok : string -> T) (functok : string -> nat -> T).
   Hypothesis leafkey_inj : forall a b, leafkey a = leafkey b -> a = b.
   Hypothesis optok_inj : forall s t, optok s = optok t -> s = t.
+  Hypothesis functok_inj : forall f g n m, functok f n = functok g m -> f = g /\ n = m.
   Hypothesis leaf_not_op : forall a s, leafkey a <> optok s.
 
-  Lemma key_prefix :
-    forall t1 t2 r1 r2,
-      eval_free t1 = true -> eval_free t2 = true ->
-      key leafkey optok t1 ++ r1 = key leafkey optok t2 ++ r2 ->
-      t1 = t2 /\ r1 = r2.
+  Notation K := (key leafkey optok functok).
+
+  Definition prefix_prop (t1 : tree L) : Prop :=
+    forall t2 r1 r2, K t1 ++ r1 = K t2 ++ r2 -> t1 = t2 /\ r1 = r2.
+
+  Lemma args_prefix :
+    forall l1, Forall prefix_prop l1 ->
+      forall l2 r1 r2, List.length l1 = List.length l2 ->
+        flat_map K l1 ++ r1 = flat_map K l2 ++ r2 -> l1 = l2 /\ r1 = r2.
   Proof.
-    induction t1 as [l1 | o1 a1 IHa b1 IHb | f1 args1]; intros t2 r1 r2 E1 E2 H.
-    - destruct t2 as [l2 | o2 a2 b2 | f2 args2]; cbn in *.
-      + injection H as Hk Hr. apply leafkey_inj in Hk. subst. auto.
-      + injection H as Hk _. exfalso. eapply leaf_not_op; eauto.
-      + discriminate E2.
-    - destruct t2 as [l2 | o2 a2 b2 | f2 args2]; cbn in *.
-      + injection H as Hk _. exfalso. eapply leaf_not_op; eauto.
-      + injection H as Hk Hr.
-        apply optok_inj in Hk. apply opname_inj in Hk. subst o2.
-        apply andb_true_iff in E1 as [Ea1 Eb1]. apply andb_true_iff in E2 as [Ea2 Eb2].
-        rewrite <- !app_assoc in Hr.
-        destruct (IHa a2 _ _ Ea1 Ea2 Hr) as [-> Hr'].
-        destruct (IHb b2 _ _ Eb1 Eb2 Hr') as [-> Hr''].
-        auto.
-      + discriminate E2.
-    - discriminate E1.
+    induction 1 as [| x l1 Hx _ IH]; intros [| y l2] r1 r2 Hlen H; try discriminate Hlen.
+    - cbn in H. auto.
+    - cbn [flat_map] in H. rewrite <- !app_assoc in H.
+      destruct (Hx y _ _ H) as [-> H'].
+      injection Hlen as Hlen. destruct (IH l2 r1 r2 Hlen H') as [-> ->]. auto.
   Qed.
 
-  Lemma key_injective :
-    forall t1 t2, eval_free t1 = true -> eval_free t2 = true ->
-      key leafkey optok t1 = key leafkey optok t2 -> t1 = t2.
+  Lemma key_prefix_all : forall t1, prefix_prop t1.
   Proof.
-    intros t1 t2 E1 E2 H.
-    destruct (key_prefix t1 t2 [] [] E1 E2) as [Ht _]; [now rewrite !app_nil_r | exact Ht].
+    apply tree_ind'; unfold prefix_prop.
+    - intros l1 t2 r1 r2 H. destruct t2 as [l2 | o2 a2 b2 | f2 args2]; cbn in H.
+      + injection H as Hk Hr. apply leafkey_inj in Hk. subst. auto.
+      + injection H as Hk _. exfalso. eapply leaf_not_op; eauto.
+      + injection H as Hk _. exfalso. eapply leaf_not_op; eauto.
+    - intros o1 a1 b1 IHa IHb t2 r1 r2 H. destruct t2 as [l2 | o2 a2 b2 | f2 args2]; cbn in H.
+      + injection H as Hk _. exfalso. eapply leaf_not_op; eauto.
+      + injection H as Hk Hr. apply optok_inj in Hk. apply opname_inj in Hk. subst o2.
+        rewrite <- !app_assoc in Hr.
+        destruct (IHa a2 _ _ Hr) as [-> Hr']. destruct (IHb b2 _ _ Hr') as [-> Hr'']. auto.
+      + injection H as Hk _. apply optok_inj in Hk. exfalso. eapply opname_not_evaluate; eauto.
+    - intros f1 args1 IH t2 r1 r2 H. destruct t2 as [l2 | o2 a2 b2 | f2 args2]; cbn in H.
+      + injection H as Hk _. exfalso. eapply leaf_not_op; eauto.
+      + injection H as Hk _. apply optok_inj in Hk. exfalso.
+        eapply opname_not_evaluate; eauto.
+      + injection H as Hf Hr. apply functok_inj in Hf as [-> Hn].
+        destruct (args_prefix args1 IH args2 r1 r2 Hn Hr) as [-> ->]. auto.
+  Qed.
+
+  Lemma key_injective_all : forall t1 t2, K t1 = K t2 -> t1 = t2.
+  Proof.
+    intros t1 t2 H. destruct (key_prefix_all t1 t2 [] []) as [Ht _];
+      [now rewrite !app_nil_r | exact Ht].
   Qed.
 End Prefix.
 
@@ -133,6 +170,8 @@ Section Leaves.
       apply proj_key_inj in Hp. subst. reflexivity.
     - assert (map (proj_key digest sha) ps = map (proj_key digest sha) ps0) as Hp by congruence.
       apply (map_inj _ _ _ proj_key_inj) in Hp. subst. reflexivity.
+    - injection H as -> -> -> -> ->. reflexivity.
+    - injection H as -> ->. reflexivity.
   Qed.
 
   Lemma leaf_key_not_op : forall l s, leaf_key digest sha l <> TOp s.
@@ -141,21 +180,21 @@ Section Leaves.
   Lemma top_inj : forall s t : string, @TOp digest s = TOp t -> s = t.
   Proof. intros s t H; injection H; auto. Qed.
 
-  (* trees without function-evaluation nodes: the key identifies the tree *)
-  Lemma okey_injective_eval_free :
-    forall t1 t2 : tree leaf, eval_free t1 = true -> eval_free t2 = true ->
-      okey digest sha t1 = okey digest sha t2 -> t1 = t2.
+  Lemma tfunc_inj : forall f g n m, @TFunc digest f n = TFunc g m -> f = g /\ n = m.
+  Proof. intros f g n m H; injection H; auto. Qed.
+
+  (* the key identifies the tree: all trees, function nodes included *)
+  Lemma okey_injective :
+    forall t1 t2 : tree leaf, okey digest sha t1 = okey digest sha t2 -> t1 = t2.
   Proof.
     intros t1 t2. unfold okey.
-    apply key_injective; [exact leaf_key_inj | exact top_inj | exact leaf_key_not_op].
+    apply key_injective_all;
+      [exact leaf_key_inj | exact top_inj | exact tfunc_inj | exact leaf_key_not_op].
   Qed.
 
   Lemma okey_iff :
-    forall t1 t2 : tree leaf, eval_free t1 = true -> eval_free t2 = true ->
-      (okey digest sha t1 = okey digest sha t2 <-> t1 = t2).
-  Proof.
-    intros t1 t2 E1 E2; split; [apply okey_injective_eval_free; assumption | intros ->; reflexivity].
-  Qed.
+    forall t1 t2 : tree leaf, okey digest sha t1 = okey digest sha t2 <-> t1 = t2.
+  Proof. intros t1 t2; split; [apply okey_injective | intros ->; reflexivity]. Qed.
 
   (* equal trees: equal keys and equal hashes, whatever the string hash is *)
   Lemma equal_trees_equal_keys :
@@ -165,57 +204,58 @@ Section Leaves.
       hash (okey digest sha t1) = hash (okey digest sha t2).
   Proof. intros H hash t1 t2 ->; split; reflexivity. Qed.
 
-  (* the three collisions of the unrepaired code, now excluded, inside any context *)
-  Fixpoint plug (ctx : list (binop * bool * tree leaf)) (t : tree leaf) : tree leaf :=
+  (* a context: a path of operation / function nodes down to one hole *)
+  Inductive frame :=
+  | FBinL (o : binop) (s : tree leaf)                  (* Bin o [] s *)
+  | FBinR (o : binop) (s : tree leaf)                  (* Bin o s [] *)
+  | FEval (f : string) (before after : list (tree leaf)).
+
+  Fixpoint plug (ctx : list frame) (t : tree leaf) : tree leaf :=
     match ctx with
     | [] => t
-    | (o, true, s) :: c => Bin o (plug c t) s
-    | (o, false, s) :: c => Bin o s (plug c t)
+    | FBinL o s :: c => Bin o (plug c t) s
+    | FBinR o s :: c => Bin o s (plug c t)
+    | FEval f bf af :: c => Eval f (bf ++ plug c t :: af)
     end.
-
-  Lemma plug_eval_free : forall ctx t,
-      forallb (fun x => eval_free (snd x)) ctx = true -> eval_free t = true ->
-      eval_free (plug ctx t) = true.
-  Proof.
-    induction ctx as [| [[o b] s] c IH]; intros t Hc Ht; cbn in *; [exact Ht|].
-    apply andb_true_iff in Hc as [Hs Hc]. destruct b; cbn; rewrite (IH t Hc Ht), Hs; reflexivity.
-  Qed.
 
   Lemma plug_inj : forall ctx t1 t2, plug ctx t1 = plug ctx t2 -> t1 = t2.
   Proof.
-    induction ctx as [| [[o b] s] c IH]; intros t1 t2 H; cbn in H; [exact H|].
-    destruct b; injection H as H; auto.
+    induction ctx as [| fr c IH]; intros t1 t2 H; cbn in H; [exact H|].
+    destruct fr; injection H as H; auto.
+    apply app_inv_head in H. injection H as H. auto.
   Qed.
 
   Lemma distinct_leaves_distinct_keys :
-    forall ctx l1 l2,
-      forallb (fun x => eval_free (snd x)) ctx = true -> l1 <> l2 ->
+    forall ctx l1 l2, l1 <> l2 ->
       okey digest sha (plug ctx (Leaf l1)) <> okey digest sha (plug ctx (Leaf l2)).
   Proof.
-    intros ctx l1 l2 Hc Hne Hk.
-    apply okey_injective_eval_free in Hk; try (apply plug_eval_free; auto).
+    intros ctx l1 l2 Hne Hk. apply okey_injective in Hk.
     apply plug_inj in Hk. injection Hk as Hk. auto.
   Qed.
 End Leaves.
 
 (* ---------------------------------------------------------------------------------- *)
-(* Function-evaluation nodes: the key does not identify the tree                       *)
+(* Function-evaluation nodes: the collisions of the key before the repair                *)
 (* ---------------------------------------------------------------------------------- *)
 Definition wit_x : tree leaf := Leaf (LVar "x" 0 (-1) (-1)).
 Definition wit_y : tree leaf := Leaf (LVar "y" 0 (-1) (-1)).
 
-Lemma eval_function_collision :
-  forall (digest : Type) (sha : buffer -> digest),
-    Eval "exp" [wit_x] <> Eval "log" [wit_x] /\
-    okey digest sha (Eval "exp" [wit_x]) = okey digest sha (Eval "log" [wit_x]).
-Proof. intros; split; [discriminate | reflexivity]. Qed.
+(* the key construction before the repair: neither function nor arity *)
+Fixpoint old_key {L T} (leafkey : L -> T) (optok : string -> T) (t : tree L) : list T :=
+  match t with
+  | Leaf l => [leafkey l]
+  | Bin o a b => optok (opname o) :: old_key leafkey optok a ++ old_key leafkey optok b
+  | Eval f args => optok evaluate_name :: flat_map (old_key leafkey optok) args
+  end.
 
-Lemma eval_arity_collision :
+Lemma old_key_collisions :
   forall (digest : Type) (sha : buffer -> digest),
-    Eval "f" [Eval "g" [wit_x]; wit_y] <> Eval "f" [Eval "g" [wit_x; wit_y]] /\
-    okey digest sha (Eval "f" [Eval "g" [wit_x]; wit_y])
-    = okey digest sha (Eval "f" [Eval "g" [wit_x; wit_y]]).
-Proof. intros; split; [discriminate | reflexivity]. Qed.
+    let ok := old_key (leaf_key digest sha) TOp in
+    (Eval "exp" [wit_x] <> Eval "log" [wit_x] /\
+     ok (Eval "exp" [wit_x]) = ok (Eval "log" [wit_x])) /\
+    (Eval "f" [Eval "g" [wit_x]; wit_y] <> Eval "f" [Eval "g" [wit_x; wit_y]] /\
+     ok (Eval "f" [Eval "g" [wit_x]; wit_y]) = ok (Eval "f" [Eval "g" [wit_x; wit_y]])).
+Proof. intros; repeat split; try discriminate; reflexivity. Qed.
 
 (* ---------------------------------------------------------------------------------- *)
 (* The executable comparison used by the correspondence decides key equality           *)
@@ -227,9 +267,7 @@ Proof.
 Qed.
 
 Lemma key_eqb_is_tree_equality :
-  forall t1 t2, eval_free t1 = true -> eval_free t2 = true ->
-    (key_eqb t1 t2 = true <-> t1 = t2).
+  forall t1 t2, key_eqb t1 t2 = true <-> t1 = t2.
 Proof.
-  intros t1 t2 E1 E2. rewrite key_eqb_spec. unfold ikey.
-  apply okey_iff; auto.
+  intros t1 t2. rewrite key_eqb_spec. unfold ikey. apply okey_iff. intros a b H; exact H.
 Qed.
